@@ -9,6 +9,8 @@ open Str Num Gen
 
 inductive Err where
   | parse | invalidData | reference | missingBBox | circular | missingAttr | other
+  /-- `DepthLimitExceeded` raised by the expression evaluator (`MAX_EXPR_DEPTH`) -/
+  | exprDepth
 deriving Repr, DecidableEq, Inhabited
 
 def Err.name : Err → String
@@ -19,6 +21,7 @@ def Err.name : Err → String
   | .circular => "CircularRefError"
   | .missingAttr => "MissingAttribute"
   | .other => "Other"
+  | .exprDepth => "DepthLimitExceeded"
 
 inductive ElRef where
   | id (s : Str)
